@@ -81,10 +81,25 @@ def _neighbors_unit():
             from pyvc import extract as _x
             _fn = _x.get_function('concepts/algorithms/lindig.py', 'neighbors').node
             _loop = [n for n in _ast.walk(_fn) if isinstance(n, _ast.For)][0]
-            _mods = sorted({n.target.id for n in _ast.walk(_loop) if isinstance(n, _ast.AugAssign) and isinstance(n.target, _ast.Name)})
+            # = assigned in the loop (by `x op= e` or `x = e`) and bound before it: locals introduced inside the body are not loop state
+            def _targets(nodes):
+                out = set()
+                for n in nodes:
+                    for m in _ast.walk(n):
+                        if isinstance(m, _ast.AugAssign) and isinstance(m.target, _ast.Name):
+                            out.add(m.target.id)
+                        elif isinstance(m, _ast.Assign):
+                            out |= {t.id for t in m.targets if isinstance(t, _ast.Name)}
+                return out
+            _before = []
+            for _st in _fn.body:
+                if _st is _loop:
+                    break
+                _before.append(_st)
+            _mods = sorted(_targets(_loop.body) & _targets(_before))
             if len(_mods) != 1:
                 from pyvc.engine import Unsupported
-                raise Unsupported('expected exactly one augmented-assigned variable (the candidate mask) in the loop of neighbors')
+                raise Unsupported('expected exactly one variable bound before the loop of neighbors and assigned in it (the candidate mask)')
             path.ghost['minimal.term'] = lambda e, _n=_mods[0]: getattr(e, _n)
 
             def inv(e, k):
